@@ -64,8 +64,8 @@ CONSTANTS
 VARIABLES mode, depth, base, disp, ndisp, cur, pen, lastCtl, frame, chan, df
 dvars == <<mode, depth, base, disp, ndisp, cur, pen, lastCtl, frame, chan, df>>
 
-VARIABLES ph, style, ncap, nrow, nitem, pend, c2, sent, budget
-gvars == <<ph, style, ncap, nrow, nitem, pend, c2, sent, budget>>
+VARIABLES ph, style, ncap, nrow, nitem, pend, c2, sent, budget, lastch, clean
+gvars == <<ph, style, ncap, nrow, nitem, pend, c2, sent, budget, lastch, clean>>
 
 -----------------------------------------------------------------------------
 (* Time codes *)
@@ -355,66 +355,75 @@ GInit ==
   /\ DInit
   /\ \E st \in Pick(GStarts) : df = st[1] /\ frame = LabelFrames(st[1], <<st[2], st[3], st[4], st[5]>>)
   /\ ph = "start" /\ style = "none" /\ ncap = 0 /\ nrow = 0 /\ nitem = 0 /\ pend = 0 /\ c2 = FALSE
-  /\ sent = <<LineMark>> /\ budget = 2
+  /\ sent = <<LineMark>> /\ budget = 2 /\ lastch = FALSE /\ clean = TRUE
 
-GDup == pend # 0 /\ Emit(pend) /\ pend' = 0 /\ UNCHANGED <<ph, style, ncap, nrow, nitem, c2, budget>>
+GDup == pend # 0 /\ Emit(pend) /\ pend' = 0 /\ UNCHANGED <<ph, style, ncap, nrow, nitem, c2, budget, lastch, clean>>
 
 GNull == Has("null") /\ budget > 0 /\ CodeOk /\ Emit(0) /\ pend' = 0 /\ budget' = budget - 1
-         /\ UNCHANGED <<ph, style, ncap, nrow, nitem, c2>>
+         /\ UNCHANGED <<ph, style, ncap, nrow, nitem, c2, lastch, clean>>
 
 \* channel 2: a code, then possibly text; only where the next channel-1 word is a code
 GCh2Code == Has("ch2") /\ budget > 0 /\ CodeOk /\ ph \in {"start", "row", "cr", "enm"}
             /\ (\E w \in {Ch2(WRCL), Ch2(WPac(15, 16)), Ch2(WEDM), Ch2(WEOC)} : Emit(w))
-            /\ pend' = 0 /\ c2' = TRUE /\ budget' = budget - 1 /\ UNCHANGED <<ph, style, ncap, nrow, nitem>>
+            /\ pend' = 0 /\ c2' = TRUE /\ budget' = budget - 1 /\ UNCHANGED <<ph, style, ncap, nrow, nitem, lastch, clean>>
 GCh2Text == c2 /\ budget > 0 /\ (\E p \in Pick(GChars) : Emit(WChars(p[1], p[2])))
-            /\ pend' = 0 /\ budget' = budget - 1 /\ UNCHANGED <<ph, style, ncap, nrow, nitem, c2>>
+            /\ pend' = 0 /\ budget' = budget - 1 /\ UNCHANGED <<ph, style, ncap, nrow, nitem, c2, lastch, clean>>
 
 GLine == Has("gap") /\ ph = "start" /\ ncap > 0 /\ CodeOk /\ Len(sent) > 0 /\ sent[Len(sent)] < LineMark
          /\ \E gap \in {0, 7} :
               /\ NewLine(df, FramesLabel(df, frame + gap))
               /\ sent' = Append(sent, LineMark + gap)
               /\ pend' = (IF gap = 0 /\ Has("pair") THEN pend ELSE 0)   \* a code and its copy may straddle contiguous lines
-         /\ UNCHANGED <<ph, style, ncap, nrow, nitem, c2, budget>>
+         /\ UNCHANGED <<ph, style, ncap, nrow, nitem, c2, budget, lastch, clean>>
 
+\* a new caption.  The protocols are left through an erase: another protocol may be chosen only after an EDM, and
+\* pop-on entered from another protocol starts with ENM (both memories are then empty on either reading of CTA-608)
 GMode == /\ ph = "start" /\ ncap < GMaxCaps
          /\ \E st \in Pick(GStyles) :
+              /\ st = style \/ style = "none" \/ clean
               /\ style' = st
-              /\ CASE st = "popon"   -> EmitCode(WRCL) /\ ph' = (IF Has("enm") THEN "enm" ELSE "row")
+              /\ CASE st = "popon"   -> EmitCode(WRCL) /\ ph' = (IF style \notin {"none", "popon"} THEN "enm1"
+                                                                  ELSE IF Has("enm") THEN "enm" ELSE "row")
                    [] st = "painton" -> EmitCode(WRDC) /\ ph' = "row"
                    [] st = "rollup"  -> (\E d \in Pick(GDepths) : EmitCode(WRU(d))) /\ ph' = "cr"
-         /\ ncap' = ncap + 1 /\ nrow' = 0 /\ nitem' = 0
+         /\ ncap' = ncap + 1 /\ nrow' = 0 /\ nitem' = 0 /\ lastch' = FALSE /\ clean' = FALSE
 
-GEnm  == ph = "enm" /\ (EmitCode(WENM) \/ (pend' = pend /\ c2' = c2 /\ budget' = budget /\ UNCHANGED dvars /\ sent' = sent))
-         /\ ph' = "row" /\ UNCHANGED <<style, ncap, nrow, nitem>>
-GCr   == ph = "cr" /\ EmitCode(WCR) /\ ph' = "row" /\ UNCHANGED <<style, ncap, nrow, nitem>>
+GEnm  == /\ \/ ph \in {"enm", "enm1"} /\ EmitCode(WENM)
+            \/ ph = "enm" /\ pend' = pend /\ c2' = c2 /\ budget' = budget /\ UNCHANGED dvars /\ sent' = sent
+         /\ ph' = "row" /\ UNCHANGED <<style, ncap, nrow, nitem, lastch, clean>>
+GCr   == ph = "cr" /\ EmitCode(WCR) /\ ph' = "row" /\ UNCHANGED <<style, ncap, nrow, nitem, lastch, clean>>
 
 GPac  == /\ \/ ph = "row"
             \/ ph = "txt" /\ style # "rollup" /\ nrow < GMaxRows /\ nitem > 0
          /\ \E r \in Pick(GRows), d \in Pick(GDescs) : EmitCode(WPac(r, d))
-         /\ ph' = "txt" /\ nrow' = nrow + 1 /\ nitem' = 0 /\ UNCHANGED <<style, ncap>>
+         /\ ph' = "txt" /\ nrow' = nrow + 1 /\ nitem' = 0 /\ lastch' = FALSE /\ UNCHANGED <<style, ncap, clean>>
 
+\* text items; BS and extended characters follow a character ("replace the preceding character")
 GItem == /\ ph = "txt" /\ nitem < GMaxItems
-         /\ \/ \E p \in Pick(GChars) : EmitText(WChars(p[1], p[2]))
-            \/ Has("midrow") /\ \E a \in Pick(GMids) : EmitCode(WMid(a))
-            \/ Has("special") /\ \E k \in Pick(GSpecials) : EmitCode(WSpecial(k))
-            \/ Has("extended") /\ nitem > 0 /\ \E e \in Pick(GExtendeds) : EmitCode(WExtended(e[1], e[2]))
-            \/ Has("bs") /\ nitem > 0 /\ EmitCode(WBS)
-            \/ Has("to") /\ \E k \in 1..3 : EmitCode(WTO(k))
-            \/ Has("der") /\ style = "painton" /\ EmitCode(WDER)
-         /\ nitem' = nitem + 1 /\ UNCHANGED <<ph, style, ncap, nrow>>
+         /\ \/ (\E p \in Pick(GChars) : EmitText(WChars(p[1], p[2]))) /\ lastch' = TRUE
+            \/ Has("midrow") /\ (\E a \in Pick(GMids) : EmitCode(WMid(a))) /\ lastch' = TRUE
+            \/ Has("special") /\ (\E k \in Pick(GSpecials) : EmitCode(WSpecial(k))) /\ lastch' = TRUE
+            \/ Has("extended") /\ lastch /\ (\E e \in Pick(GExtendeds) : EmitCode(WExtended(e[1], e[2]))) /\ lastch' = TRUE
+            \/ Has("bs") /\ lastch /\ EmitCode(WBS) /\ lastch' = FALSE
+            \/ Has("to") /\ (\E k \in 1..3 : EmitCode(WTO(k))) /\ lastch' = FALSE
+            \/ Has("der") /\ style = "painton" /\ EmitCode(WDER) /\ lastch' = FALSE
+         /\ nitem' = nitem + 1 /\ UNCHANGED <<ph, style, ncap, nrow, clean>>
 
 GClose == /\ ph = "txt" /\ nitem > 0
           /\ IF style = "popon" THEN ph' = "eoc" ELSE ph' = "after"
-          /\ UNCHANGED dvars /\ UNCHANGED <<style, ncap, nrow, nitem, pend, c2, sent, budget>>
-GEdmBeforeEoc == ph = "eoc" /\ Has("edm") /\ nrow < 100 /\ EmitCode(WEDM) /\ nrow' = 100 /\ UNCHANGED <<ph, style, ncap, nitem>>
-GEoc  == ph = "eoc" /\ EmitCode(WEOC) /\ ph' = "after" /\ UNCHANGED <<style, ncap, nrow, nitem>>
-GErase == ph = "after" /\ Has("erase") /\ EmitCode(WEDM) /\ ph' = "start" /\ UNCHANGED <<style, ncap, nrow, nitem>>
-GNoErase == ph = "after" /\ ph' = "start" /\ UNCHANGED dvars /\ UNCHANGED <<style, ncap, nrow, nitem, pend, c2, sent, budget>>
+          /\ UNCHANGED dvars /\ UNCHANGED <<style, ncap, nrow, nitem, pend, c2, sent, budget, lastch, clean>>
+GEdmBeforeEoc == ph = "eoc" /\ Has("edm") /\ nrow < 100 /\ EmitCode(WEDM) /\ nrow' = 100
+                 /\ UNCHANGED <<ph, style, ncap, nitem, lastch, clean>>
+GEoc  == ph = "eoc" /\ EmitCode(WEOC) /\ ph' = "after" /\ UNCHANGED <<style, ncap, nrow, nitem, lastch, clean>>
+GErase == ph = "after" /\ Has("erase") /\ EmitCode(WEDM) /\ ph' = "start" /\ clean' = TRUE
+          /\ UNCHANGED <<style, ncap, nrow, nitem, lastch>>
+GNoErase == ph = "after" /\ ph' = "start" /\ UNCHANGED dvars
+            /\ UNCHANGED <<style, ncap, nrow, nitem, pend, c2, sent, budget, lastch, clean>>
 
 \* the end of a behaviour: the emitted stream is printed for the replay into the implementation
 GDone == /\ ph = "start" /\ ncap > 0 /\ (pend = 0 \/ Has("single"))
          /\ PrintT(<<"BEH", df, frame, sent>>)
-         /\ ph' = "done" /\ UNCHANGED dvars /\ UNCHANGED <<style, ncap, nrow, nitem, pend, c2, sent, budget>>
+         /\ ph' = "done" /\ UNCHANGED dvars /\ UNCHANGED <<style, ncap, nrow, nitem, pend, c2, sent, budget, lastch, clean>>
 
 GenNext ==
   \/ GDup \/ GNull \/ GCh2Code \/ GCh2Text \/ GLine \/ GMode \/ GEnm \/ GCr \/ GPac \/ GItem \/ GClose
